@@ -174,6 +174,7 @@ def info(case):
     return {"nontrivial": nontrivial, "classes": sorted(set(classes))}
 
 
+SHRINK_STRINGS = True
 REGIONS = {}
 
 # ----------------------------------------------------------------------------- streams
